@@ -9,8 +9,10 @@ import (
 type SelCase struct {
 	op  Op
 	m   *chanMeta
-	rc  reflect.SelectCase
-	dir uint8 // 1 send, 2 recv
+	rc    reflect.SelectCase
+	dir   uint8 // 1 send, 2 recv
+	unbuf bool  // emulated unbuffered channel (see chanMeta)
+	val   any
 }
 
 // SelResult is what a rewritten select statement switches on.
@@ -30,11 +32,14 @@ func CaseSend[T any](ch chan<- T, v T) SelCase {
 		return c
 	}
 	if S != nil && !S.aborting {
-		if cap(ch) == 0 {
-			panic("vsched: send on unbuffered channel in select is not supported by the scheduler shim")
-		}
 		c.m = chanFor(*(*unsafe.Pointer)(unsafe.Pointer(&ch)))
-		c.op = Op{Kind: OpSend, ch: sendRef[T]{ch}}
+		if cap(ch) == 0 {
+			c.op = Op{Kind: OpSend, ch: sendURef{c.m}}
+			c.unbuf = true
+			c.val = v
+		} else {
+			c.op = Op{Kind: OpSend, ch: sendRef[T]{ch}}
+		}
 	}
 	return c
 }
@@ -50,7 +55,10 @@ func CaseRecv[T any](ch <-chan T) SelCase {
 	}
 	if S != nil && !S.aborting {
 		c.m = chanFor(*(*unsafe.Pointer)(unsafe.Pointer(&ch)))
-		if cap(ch) == 0 {
+		if cap(ch) == 0 && c.m.cx == nil {
+			c.op = Op{Kind: OpRecvU, ch: recvRef[T]{ch}, cm: c.m}
+			c.unbuf = true
+		} else if cap(ch) == 0 {
 			c.op = Op{Kind: OpDone, ch: recvRef[T]{ch}, cx: c.m.cx}
 		} else {
 			c.op = Op{Kind: OpRecv, ch: recvRef[T]{ch}}
@@ -101,17 +109,36 @@ func Select(hasDefault bool, cases ...SelCase) *SelResult {
 		}
 	}
 	op := &Op{Kind: OpSelect, sel: cases, def: hasDefault}
+	for i := range cases {
+		if cases[i].unbuf && cases[i].dir == 2 {
+			cases[i].m.rwait++ // a waiting receiver on each unbuffered receive clause
+		}
+	}
 	raceDisable()
 	en := op.enabled()
 	raceEnable()
 	if vis || !en {
 		yield(op, "select")
 	}
+	for i := range cases {
+		if cases[i].unbuf && cases[i].dir == 2 {
+			cases[i].m.rwait--
+		}
+	}
 	var ready []int
 	raceDisable()
 	for i := range cases {
-		if cases[i].dir != 0 && cases[i].op.enabled() {
+		// a sender that has handed its value to this (then only) waiting receiver has already
+		// gone on: the clause it was matched with must fire
+		if c := &cases[i]; c.unbuf && c.dir == 2 && len(c.m.slot) > c.m.rwait {
 			ready = append(ready, i)
+		}
+	}
+	if len(ready) == 0 {
+		for i := range cases {
+			if cases[i].dir != 0 && cases[i].op.enabled() {
+				ready = append(ready, i)
+			}
 		}
 	}
 	raceEnable()
@@ -136,6 +163,19 @@ func Select(hasDefault bool, cases ...SelCase) *SelResult {
 		}
 	}
 	S.cur.h = mix(S.cur.h, uint64(pick), 93)
+	if c.unbuf {
+		if c.dir == 1 {
+			raceReleaseMerge(unsafe.Pointer(&c.m.sem))
+			c.m.slot = append(c.m.slot, c.val)
+			return &SelResult{I: pick}
+		}
+		if len(c.m.slot) > 0 {
+			v := c.m.slot[0]
+			c.m.slot = c.m.slot[1:]
+			raceAcquire(unsafe.Pointer(&c.m.sem))
+			return &SelResult{I: pick, v: reflect.ValueOf(v), ok: true}
+		}
+	}
 	// the chosen clause is ready and no other thread runs before it fires
 	_, v, ok := reflect.Select([]reflect.SelectCase{c.rc})
 	return &SelResult{I: pick, v: v, ok: ok}
